@@ -9,7 +9,7 @@ SPEC = {
                      'theories/Base/Word.v', 'theories/Base/FBits.v', 'theories/Gen/Leaf.v',
                      'theories/Wire/Simple.v', 'theories/Wire/SimpleProofs.v',
                      'theories/Wire/Msgpack.v', 'theories/Wire/MsgpackProofs.v', 'theories/Wire/MsgpackRT.v',
-                     'theories/Wire/Cbor.v', 'theories/Wire/CborFloat.v', 'theories/Wire/CborProofs.v', 'theories/Wire/CborEnc.v',
+                     'theories/Wire/Cbor.v', 'theories/Wire/CborFloat.v', 'theories/Wire/CborProofs.v', 'theories/Wire/CborEnc.v', 'theories/Wire/CborTime.v',
                      'theories/C10/CborSpec.v', 'theories/C10/CborConv.v',
                      'theories/Wire/Binc.v', 'theories/Wire/BincProofs.v'],
     'harness': 'c01',
